@@ -38,6 +38,7 @@ impl<'a, 'tcx, 'ast> ast::visit::Visitor<'ast> for FmtVisitor<'a, 'tcx> {
                             ("arg", J::Int(idx)),
                             ("trait", J::s(format!("{:?}", ph.format_trait))),
                             ("plain", J::Bool(format!("{:?}", ph.format_options) == format!("{:?}", ast::FormatOptions::default()))),
+                            ("opts", J::s(format!("{:?}", ph.format_options))),
                         ]))
                     }
                 }
